@@ -237,6 +237,19 @@ def make_numpy():
             x = [v for v in x.a.flat]
         if isinstance(x, StrArray) or (isinstance(x, (list, tuple)) and x and builtins.all(isinstance(v, str) for v in x)):
             return StrArray(sorted(set(x.items if isinstance(x, StrArray) else x)))
+        if k.get("return_index") and k.get("axis") is None:
+            # flat concrete data: numpy's own contract (sorted values, index of the first occurrence, inverse, counts)
+            flat = list(x.a.flat) if isinstance(x, Arr) else list(_obj(x).flat)
+            if builtins.any(isinstance(v, Sym) for v in flat):
+                raise Inconclusive("numpy.unique(return_index=True) on symbolic data is not modelled")
+            vals = sorted(set(flat), key=lambda q: Fraction(q))
+            out = [NDArray(np.array(vals, dtype=object), dtype=getattr(x, "dtype", None))]
+            out.append(NDArray(np.array([flat.index(v) for v in vals], dtype=object), dtype="int64"))
+            if k.get("return_inverse"):
+                out.append(NDArray(np.array([vals.index(v) for v in flat], dtype=object), dtype="int64"))
+            if k.get("return_counts"):
+                out.append(NDArray(np.array([flat.count(v) for v in vals], dtype=object), dtype="int64"))
+            return tuple(out)
         return T.unique(x, *a, **k)
     m.unique = np_unique
     _nd = lambda x: x if isinstance(x, Arr) else NDArray(_obj(x))
